@@ -71,6 +71,17 @@ class StmtMixin:
     def st_Assign(self, node):
         # container literal with a declared local shape
         v = None
+        if len(node.targets) == 1 and isinstance(node.targets[0], ast.Tuple) and isinstance(node.value, ast.Tuple) \
+                and len(node.targets[0].elts) == len(node.value.elts) \
+                and all(isinstance(t, ast.Name) for t in node.targets[0].elts):
+            # a, b = {}, {}  with declared local container shapes
+            vals = []
+            for t, e in zip(node.targets[0].elts, node.value.elts):
+                x = self.maybe_alloc_local(t.id, e)
+                vals.append(x if x is not None else self.ev(e))
+            for t, x in zip(node.targets[0].elts, vals):
+                self.bind(t.id, x)
+            return
         if len(node.targets) == 1 and isinstance(node.targets[0], ast.Name):
             v = self.maybe_alloc_local(node.targets[0].id, node.value)
         if v is None:
